@@ -560,11 +560,55 @@ def run_objects_on_files(acc):
                 w.destroy()
 
 
+def run_registered_not_in_force(acc):
+    """A name that is REGISTERED as a default but not in force: the enforcer
+    takes its rules from set_rules()/the constructor only (use_conf off), so
+    the registration never reaches the store.  `rule:NAME` then is a reference
+    to an undefined name - exactly what enforcing NAME itself gives."""
+    from oslo_policy import policy as P
+    exprs = ['rule:reg', 'not rule:reg', '(role:nobody or rule:reg)',
+             'rule:via', 'role:x and rule:reg']
+    for default, how in itertools.product((None, 'dflt'), ('ctor', 'set')):
+        rules = {'via': 'rule:reg', 'dflt': 'role:y', 'other': '@'}
+        for expr in exprs:
+            cur = dict(rules, p=expr)
+            conf = world.new_conf()
+            if how == 'ctor':
+                enf = P.Enforcer(conf, use_conf=False, default_rule=default,
+                                 rules=P.Rules.from_dict(cur))
+            else:
+                enf = P.Enforcer(conf, use_conf=False, default_rule=default)
+            enf.register_default(P.RuleDefault('reg', 'role:x'))
+            if how == 'set':
+                enf.set_rules(P.Rules.from_dict(cur), use_conf=False)
+            acc.case('S4', True)
+            for q in ('p', 'reg'):
+                for roles in ROLESETS:
+                    exp = ref_decide(cur, default, q, set(roles))
+                    acc.ev()
+                    got = world.decide(enf, q, {}, {'roles': list(roles)})
+                    if got != ('ok', exp):
+                        acc.violation(
+                            'S4|registered-not-in-force|%s' % (
+                                'allows' if got == ('ok', True) else
+                                'denies' if got[0] == 'ok' else got[1]),
+                            '%r with roles %r decides %r where the name reg '
+                            'is registered but not in the rule set (default '
+                            'rule %r); an undefined reference gives %r' %
+                            (cur[q] if q in cur else q, roles, got, default,
+                             exp),
+                            {'rules': cur, 'default': default, 'query': q,
+                             'roles': list(roles), 'how': how}, exp, got,
+                            'S4')
+                    acc.outcome('registered-not-in-force-%s' % exp)
+
+
 def run_current_rule(acc):
     _register()
     enf = world.bare_enforcer()
     run_reentrant(acc, enf)
     run_objects_on_files(acc)
+    run_registered_not_in_force(acc)
     # parents are evaluated before the subclasses, and once more after them
     for kind in ('vrec4', 'vrec3', 'vrec43', 'vrec34', 'vrec4', 'vrec3',
                  'vrec4n', 'vrec4r', 'vduck4', 'vduck3'):
